@@ -30,7 +30,7 @@ RULE = (
 STATE_MEASURE = "(operation kind sequence, fault site) and heap shapes (who was copied from whom, cov/maneuver presence)"
 PROBES = [
     "fault_fired_natural", "fault_fired_injected", "atomic_failure_checked", "drag_cov_with_state",
-    "mutation_with_relatives", "pickle_across_nodes", "pickle_with_cov", "access_checked", "foreign_name_rejected", "still_usable_after_failure", "infos_checked", "form_call_checked", "cov_built_from_cov", "heap_object_registered_as_frame", "converted_into_frame_of_heap_object",
+    "mutation_with_relatives", "pickle_across_nodes", "pickle_with_cov", "access_checked", "foreign_name_rejected", "still_usable_after_failure", "infos_checked", "form_call_checked", "cov_built_from_cov", "heap_object_registered_as_frame", "converted_into_frame_of_heap_object", "copy_module_used", "local_covariance_against_own_axes", "date_assigned", "hill_frame_state_pickled",
 ]
 REAL_VS_STUB = "real: StateVector/Orbit/Cov/forms/frames/propagators, pickle; stub: none (the injected faults are raising wrappers around real callees in the node's private package copy); model: snapshots (bytes, labels, identities) of every heap object before each operation"
 ASSUMPTIONS = ["asynchronous exceptions (KeyboardInterrupt/MemoryError at an arbitrary bytecode) are not injected: the statement speaks of a form or frame change that fails", "mutating the inside of a Man object shared by a copy and its source is not exercised (list-level independence only)"]
@@ -119,6 +119,11 @@ def gen_plan(rng, tier, i):
     for o_ in ops:
         if o_["op"] == "pickle" and child.random() < 0.4:
             o_["where"] = child.choice(["copy", "deepcopy"])
+    if child.random() < 0.2 and len(ops) < 6:
+        # the date of an object is assigned (a metadata assignment like any other)
+        ops.insert(child.randint(0, len(ops)), {"op": "set_date", "obj": child.randrange(8), "dt_s": child.choice([3600.0, -7200.0, 86400.0, 0.5])})
+    if child.random() < 0.06 and len(ops) < 6:
+        ops.insert(child.randint(0, len(ops)), {"op": "hill_pickle", "obj": 0, "first": child.choice(["QSW", "TNW"]), "where": child.choice(["same", "other"])})
     if child.random() < 0.15 and len(ops) < 6:  # (histories of length <= 6, as the quantifier says)
         ops.insert(child.randint(0, len(ops)), {"op": "pickle", "obj": child.randrange(8), "where": child.choice(["copy", "deepcopy"])})
     return {"knobs": {"objects": objs, "with_eop": False}, "ops": ops}
@@ -184,6 +189,17 @@ def man_sig(m):
     return tuple(out)
 
 
+def _cov_view(cov):
+    """What the covariance is once expressed in an Earth-fixed frame (a pure conversion: it shows the date and the state the
+    covariance keeps for itself)."""
+    try:
+        c = cov.copy(frame="ITRF")
+        a = np.array(c, dtype=float)
+        return a.tobytes() if np.all(np.isfinite(a)) else "nan"
+    except Exception as e:  # noqa
+        return type(e).__name__
+
+
 def snap(o):
     """Everything a caller can observe of one object, as comparable data."""
     d = o._data
@@ -207,6 +223,7 @@ def snap(o):
         "meta": meta,
         "mans": None if mans is None else tuple((id(m), man_sig(m)) for m in (mans if isinstance(mans, list) else [mans])),
         "cov": None if cov is None else np.array(cov, dtype=float).tobytes(),
+        "cov_itrf": None if cov is None else _cov_view(cov),
         "cov_frame": None if cov is None else str(getattr(cov.frame, "name", cov.frame)),
         "prop": id(d.get("propagator")) if "propagator" in d else None,
         "type": type(o).__name__,
@@ -330,7 +347,7 @@ class Heap:
             ctx.checks += 1
             now = snap(o)
             if receiver is not None and receiver < len(self.group) and self.group[j] == self.group[receiver]:
-                for k_ in ("meta", "mans", "cov", "cov_frame"):
+                for k_ in ("meta", "mans", "cov", "cov_frame", "cov_itrf"):
                     now[k_] = before[j][k_]
             if now != before[j]:
                 diff = [k for k in now if now[k] != before[j][k]]
@@ -340,6 +357,18 @@ class Heap:
                     {"kind": "other_object_changed", "fields": ",".join(sorted(set(d.split(".")[0] for d in diff))), "related": related},
                     f"{where}: object {j} changed ({', '.join(diff)}) although the operation was applied to object {receiver}" + (" (one is a copy / conversion of the other)" if related else ""),
                 )
+
+    def touched_before(self, idx, t):
+        """True when the coordinates (or covariance terms) of object idx, or of an object it derives from at the time it was derived,
+        were assigned element by element at or before step t: the covariance keeps the state it was attached to."""
+        seen = set()
+        while idx is not None and idx not in seen:
+            seen.add(idx)
+            if idx in getattr(self, "assigned_at", {}) and self.assigned_at[idx] <= t:
+                return True
+            t = min(t, getattr(self, "born_at", {}).get(idx, -1))
+            idx = self.rel[idx] if idx < len(self.rel) else None
+        return False
 
     def related(self, a, b):
         if a is None or b is None:
@@ -486,7 +515,14 @@ class Heap:
             with n:
                 before = [snap(x) for x in self.objs]
                 phys_before = phys(o) if k in ("set_form", "set_frame", "cov_frame") else None
+                self.step = step
+                if not hasattr(self, "born_at"):
+                    self.born_at, self.assigned_at = {i_: -1 for i_ in range(len(self.objs))}, {}
+                if k in ("assign", "cov_set"):
+                    self.assigned_at[j] = step
                 getattr(self, "op_" + k)(j, o, op, fail, before, where, phys_before)
+                for i_ in range(len(self.objs)):
+                    self.born_at.setdefault(i_, step)
                 self.others_unchanged(before, self.receiver if hasattr(self, "receiver") else j, where)
                 self.no_shared_memory(where)
                 for jj in range(len(self.objs)):
@@ -691,6 +727,20 @@ class Heap:
         ctx.checks += 1
         if (now["vals"], now["form"], now["frame"]) != (before[j]["vals"], before[j]["form"], before[j]["frame"]):
             ctx.violate("no-aliasing", {"kind": "state_changed_by_cov_frame"}, f"{where}: cov.frame = {target!r} changed the state vector itself")
+        if target in ("QSW", "TNW") and before[j]["cov_frame"] == before[j]["frame"] and before[j]["frame"] in INERTIAL and phys_before is not None and np.all(np.isfinite(phys_before)) and not self.touched_before(j, self.step):
+            # the local axes are those of this object's own position and velocity, whatever happened to the object it was copied from
+            from checks.c14 import local_axes, bd
+
+            L = bd(local_axes(target, phys_before[:3], phys_before[3:]))
+            C0 = np.frombuffer(before[j]["cov"]).reshape(6, 6)
+            want = L @ C0 @ L.T
+            got = np.frombuffer(now["cov"]).reshape(6, 6)
+            d_ = np.sqrt(np.abs(np.diag(want))) + 1e-300
+            err = float(np.max(np.abs(got - want) / np.outer(d_, d_)))
+            ctx.checks += 1
+            ctx.probe("local_covariance_against_own_axes")
+            if err > 1e-8:
+                ctx.violate("no-aliasing", {"kind": "covariance_converted_with_another_state"}, f"{where}: the covariance of object {j} converted to {target} differs from the rotation built on this object's own position and velocity (relative {err:.3e}): it was converted with the state of another object")
 
     # -- assignments -----------------------------------------------------------
     def op_assign(self, j, o, op, fail, before, where, _):
@@ -908,6 +958,58 @@ class Heap:
                     ctx.violate("round-trip", {"kind": "unpickled_cov_converts_differently"}, f"{where}: the covariance of the unpickled object converts differently to {tgt}")
             except Exception as e:  # noqa
                 ctx.violate("round-trip", {"kind": "unpickled_object_broken", "had_cov": True}, f"{where}: the covariance of the unpickled object cannot change frame: {type(e).__name__}: {e}")
+
+    def op_set_date(self, j, o, op, fail, before, where, _):
+        """obj.date = <another date>: the coordinates and everything else stay what they are; nothing shows in the other objects."""
+        ctx = self.ctx
+        self.receiver = j
+        try:
+            o.date = o.date + self.node.timedelta(seconds=op["dt_s"])
+        except Exception as e:  # noqa
+            ctx.violate("element-access", {"kind": "date_assignment_fails", "exc": type(e).__name__}, f"{where}: obj.date = ... raised {type(e).__name__}: {e}")
+            return
+        ctx.checks += 1
+        ctx.probe("date_assigned")
+        now = snap(o)
+        if (now["vals"], now["form"], now["frame"], now["meta"], now["cov"]) != (before[j]["vals"], before[j]["form"], before[j]["frame"], before[j]["meta"], before[j]["cov"]):
+            ctx.violate("no-aliasing", {"kind": "date_assignment_changed_something_else"}, f"{where}: assigning the date changed the coordinates, labels, metadata or covariance values of the object")
+
+    def op_hill_pickle(self, j, o, op, fail, before, where, _):
+        """Two Hill frames of different orientations exist in the process; a state attached to the first one goes through a pickle
+        (same or another process, which created the same two frames): same values, same frame."""
+        ctx = self.ctx
+        self.receiver = None
+        n = self.node
+
+        def make(node):
+            fr = node.mod("beyond.frames.frames")
+            cw = node.mod("beyond.propagators.cw")
+            first = fr.HillFrame(op["first"])
+            fr.HillFrame("TNW" if op["first"] == "QSW" else "QSW")
+            prop = cw.ClohessyWiltshire(7.0e6, frame=first)
+            return node.Orbit([100.0, -2000.0, 30.0, 0.1, -0.2, 0.05], node.Date(58000, 0.0), "cartesian", first, prop)
+
+        try:
+            orb = make(n)
+            label = (orb.frame.name, getattr(orb.frame.orientation, "name", str(orb.frame.orientation)))
+            vals = np.array(orb, dtype=float).tobytes()
+            data = pickle.dumps(orb)
+            if op["where"] == "other":
+                peer = Node("peer-hill")
+                with peer:
+                    peer.config.update({"eop": {"missing_policy": "pass"}})
+                    make(peer)
+                    data = pickle.dumps(pickle.loads(data))
+            new = pickle.loads(data)
+            got = (new.frame.name, getattr(new.frame.orientation, "name", str(new.frame.orientation)))
+            same_vals = np.array(new, dtype=float).tobytes() == vals
+        except Exception as e:  # noqa
+            ctx.violate("round-trip", {"kind": "pickle_fails", "stage": "hill"}, f"{where}: pickling a state attached to a Hill frame raised {type(e).__name__}: {e}")
+            return
+        ctx.checks += 1
+        ctx.probe("hill_frame_state_pickled")
+        if got != label or not same_vals:
+            ctx.violate("round-trip", {"kind": "content_lost", "what": "hill_frame"}, f"{where}: a state attached to the Hill frame {label} comes out of a pickle attached to {got}" + ("" if same_vals else " with other values"))
 
     def op_infos(self, j, o, op, fail, before, where, _):
         """Reading the derived quantities is a pure query."""
